@@ -123,11 +123,13 @@ package mbapp
 
 //@ func (Header).GetTimeout
 //@   requires len(h) == 24
+//@   pure
 //@ func (Header).GroupID
 //@   requires len(h) == 24
 //@   ensures ret.Counter == be32at(h, 8) && ret.OriginTime == be32at(h, 4)
 //@ func (Header).getUint32Bit
 //@   requires 0 <= n && n < 6 && len(h) == 24
+//@   pure
 //@ func (Header).setUint32Bit
 //@   requires 0 <= n && n < 6 && len(h) == 24
 //@   inline
@@ -141,11 +143,12 @@ package mbapp
 //@   requires 0 <= partCount && 0 <= totalSize
 //@   ensures ret != nil && fresh(ret) && ret.partCount == partCount && len(ret.buf) == totalSize && fresh(ret.buf)
 //@   ensures ret.bitMap.n == partCount && len(ret.bitMap.buf) == (partCount + 7) / 8 && fresh(ret.bitMap.buf)
+//@   ensures arr(ret.bitMap.buf) != arr(ret.buf)
 //@   ensures forall j :: 0 <= j && j < len(ret.bitMap.buf) ==> ret.bitMap.buf[j] == 0
 //@
 //@ func (*collector).addPart
 //@   requires c.partCount == c.bitMap.n && 0 <= c.bitMap.n && 8 * len(c.bitMap.buf) >= c.bitMap.n
-//@   requires arr(c.bitMap.buf) != arr(c.buf) && arr(c.bitMap.buf) != arr(data)
+//@   requires arr(c.bitMap.buf) != arr(c.buf)
 //@   requires 0 <= partIndex
 //@   modifies all(c.buf), all(c.bitMap.buf)
 //@   ensures c.partCount == old(c.partCount) && c.buf == old(c.buf) && c.bitMap.n == old(c.bitMap.n) && c.bitMap.buf == old(c.bitMap.buf)
